@@ -6,12 +6,15 @@ import (
 	"go/ast"
 	"go/parser"
 	"go/token"
+	"hash/fnv"
 	"os"
 	"reflect"
 	"strings"
 	"testing"
+	"time"
 	"unicode/utf8"
 
+	"github.com/a-h/templ/generator"
 	templparser "github.com/a-h/templ/parser/v2"
 	"pgregory.net/rapid"
 
@@ -58,6 +61,27 @@ func indexOf(src string, line, col int) int {
 	return idx + col
 }
 
+// genOptions chooses, as a pure function of the source text, which of the header options of
+// `templ generate` (-include-version, -include-timestamp, the language server's skipped
+// "Code generated" comment) the file is generated with: whatever is written in front of the
+// package clause must move every recorded target position with it.
+func genOptions(src string) (string, []generator.GenerateOpt) {
+	h := fnv.New32a()
+	h.Write([]byte(src))
+	stamp := time.Date(2024, 2, 29, 23, 59, 58, 0, time.FixedZone("", 5*3600+1800))
+	switch h.Sum32() % 6 {
+	case 0:
+		return "version", []generator.GenerateOpt{generator.WithVersion("v0.3.865")}
+	case 1:
+		return "timestamp", []generator.GenerateOpt{generator.WithTimestamp(stamp)}
+	case 2:
+		return "version+timestamp", []generator.GenerateOpt{generator.WithVersion("v0.3.865"), generator.WithTimestamp(stamp)}
+	case 3:
+		return "skip-generated-comment+timestamp", []generator.GenerateOpt{generator.WithSkipCodeGeneratedComment(), generator.WithTimestamp(stamp)}
+	}
+	return "default", nil
+}
+
 type exprAt struct {
 	slot  string
 	start int
@@ -66,10 +90,12 @@ type exprAt struct {
 
 // decide checks the source map of one accepted file. exprs nil: take the expressions from the parser.
 func decide(src string, exprs []exprAt) (n int, err error) {
-	g, _, gerr := tc.Generate(src, "f.templ")
+	variant, opts := genOptions(src)
+	g, _, gerr := tc.GenerateOpts(src, "f.templ", opts...)
 	if gerr != nil {
 		return 0, nil // not accepted
 	}
+	rec.Class("options:" + variant)
 	gen := g.RawGo
 	sm := g.Output.SourceMap
 	if exprs == nil {
